@@ -1,5 +1,11 @@
 """Specification vocabulary for compiled content matchers (C07, C15): the automaton run."""
-from spec.native import all_, any_, implies  # noqa: F401
+from spec.native import abstract, all_, any_, implies  # noqa: F401
+
+
+@abstract
+def req_attrs(t: "NodeType") -> bool:
+    return t.has_required_attrs()
+
 
 
 def edge_idx(edges: "list[MatchEdge]", name: "str", k: int) -> int:
@@ -72,3 +78,12 @@ def replace_ok(nt: "NodeType", c: "list[Node]", frm: int, to: int, r: "list[Node
         and run_st(run_st(run_st(nt.content_match, c, 0, frm), r, start, end), c, to, len(c)).valid_end
         and first_bad_child(nt, r, start, end) < 0
     )
+
+
+def gen_idx(edges: "list[MatchEdge]", k: int) -> int:
+    """index of the first edge at or after k whose type is generatable (not text, no required attributes), or -1"""
+    if k < 0 or k >= len(edges):
+        return -1
+    if not (edges[k].type.is_text or req_attrs(edges[k].type)):
+        return k
+    return gen_idx(edges, k + 1)
